@@ -7,7 +7,7 @@ Lemma snapshot_path_gen_notrim c caller test standalone :
   snapshot_path_gen false c caller test standalone = snapshot_path c caller test standalone.
 Proof.
   unfold snapshot_path_gen, snapshot_path. rewrite andb_true_r.
-  destruct (is_abs (c_dir c)); reflexivity.
+  destruct standalone; [destruct (is_abs (esc_pct (c_dir c)))|destruct (is_abs (c_dir c))]; reflexivity.
 Qed.
 
 (* multi-entry: <dir>/<name>.snap<Ext> *)
@@ -20,14 +20,16 @@ Lemma path_multi c caller test :
           end) ++ B ".snap" ++ c_ext c).
 Proof. unfold snapshot_path, construct_filename, snaps_ext. destruct (c_filename c); reflexivity. Qed.
 
-(* standalone: <dir>/<Filename, or N with / replaced by _>_%d.snap<Ext> (the ordinal is substituted later) *)
+(* standalone: the FORMAT <dir>/<Filename, or N with / replaced by _>_%d.snap<Ext> in which every '%' of the directory, the
+   calling file, the name and the extension is doubled; the ordinal is substituted later (subst_d_format below, and
+   Proofs/PercentP.v for the path that results) *)
 Lemma path_standalone c caller test :
   snapshot_path c caller test true =
-  join2 (if is_abs (c_dir c) then c_dir c else join2 (dirname caller) (c_dir c))
-        (((match c_filename c with
-           | [] => replace_byte slash 95%N test
-           | f => f
-           end) ++ B "_%d") ++ B ".snap" ++ c_ext c).
+  join2 (if is_abs (esc_pct (c_dir c)) then esc_pct (c_dir c) else join2 (dirname (esc_pct caller)) (esc_pct (c_dir c)))
+        (esc_pct (match c_filename c with
+                  | [] => replace_byte slash 95%N test
+                  | f => f
+                  end) ++ B "_%d" ++ B ".snap" ++ esc_pct (c_ext c)).
 Proof. unfold snapshot_path, construct_filename, snaps_ext. destruct (c_filename c); reflexivity. Qed.
 
 (* an absolute Dir makes the location independent of the calling file's directory *)
@@ -35,8 +37,12 @@ Lemma path_abs_dir c caller1 caller2 test standalone :
   is_abs (c_dir c) = true -> c_filename c <> [] ->
   snapshot_path c caller1 test standalone = snapshot_path c caller2 test standalone.
 Proof.
-  intros Ha Hf. unfold snapshot_path, construct_filename. rewrite Ha.
-  destruct (c_filename c); [contradiction|reflexivity].
+  intros Ha Hf. unfold snapshot_path, construct_filename.
+  assert (Ha' : is_abs (esc_pct (c_dir c)) = true).
+  { destruct (c_dir c) as [|x r]; [discriminate|]. cbn [is_abs] in Ha. cbn [esc_pct].
+    destruct (N.eqb x pct) eqn:E; [|exact Ha].
+    apply N.eqb_eq in E. subst x. discriminate Ha. }
+  destruct standalone; rewrite ?Ha, ?Ha'; (destruct (c_filename c); [contradiction|reflexivity]).
 Qed.
 
 (* helper frames in non-test files between the call and the test function do not matter: the
@@ -74,28 +80,48 @@ Qed.
 
 (* ---------- the standalone ordinal, the .json default, -trimpath ---------- *)
 
-(* fmt.Sprintf(path, k) is modelled by [subst_d]: it puts k in place of the FIRST "%d". That is the "_%d" constructFilename
-   appended exactly when nothing before it holds a '%' (directory, Filename, test name): the condition under which the model
-   is exact (finding K8 is its failure) *)
-Lemma subst_d_first (pre post k : bytes) :
-  ~ In 37%N pre -> subst_d (pre ++ 37%N :: 100%N :: post) k = pre ++ k ++ post.
+(* fmt.Sprintf(path, k) is modelled by [subst_d]: "%%" prints '%', the first "%d" prints the ordinal. On a format whose
+   literal parts were escaped with [esc_pct] the result is the literal parts around the ordinal - for EVERY content of the
+   parts, '%' included (before fix F8 the parts were not escaped: finding K8) *)
+Lemma unesc_esc_pct (s : bytes) : unesc_pct (esc_pct s) = s.
 Proof.
-  induction pre as [|c pre IH]; intros Hn.
-  - reflexivity.
-  - cbn [app]. assert (Hc : c <> 37%N) by (intros E; apply Hn; left; now symmetry).
-    assert (Hp : ~ In 37%N pre) by (intros H; apply Hn; now right).
-    unfold subst_d; fold subst_d.
-    destruct c as [|p]; [now rewrite IH|].
-    destruct (N.eq_dec (N.pos p) 37%N) as [E|E]; [contradiction|].
-    (* the pattern 37 :: 100 :: r does not match because the head is not 37 *)
-    destruct p as [p|p|]; try (now rewrite IH);
-    repeat (destruct p as [p|p|]; try (now rewrite IH); try (exfalso; apply E; reflexivity)).
+  induction s as [|c s IH]; [reflexivity|]. cbn [esc_pct].
+  destruct (N.eqb c pct) eqn:E.
+  - apply N.eqb_eq in E. subst c. cbn [unesc_pct]. rewrite N.eqb_refl. now rewrite IH.
+  - cbn [unesc_pct]. rewrite E. now rewrite IH.
+Qed.
+Lemma subst_d_format (pre post k : bytes) :
+  subst_d (esc_pct pre ++ 37%N :: 100%N :: esc_pct post) k = pre ++ k ++ post.
+Proof.
+  induction pre as [|c pre IH].
+  - cbn [esc_pct app subst_d]. change (N.eqb 37 pct) with true. cbn iota.
+    change (N.eqb 100 pct) with false. cbn iota. change (N.eqb 100 100) with true. cbn iota.
+    now rewrite unesc_esc_pct.
+  - cbn [esc_pct]. destruct (N.eqb c pct) eqn:E.
+    + apply N.eqb_eq in E. subst c. cbn [app subst_d]. rewrite N.eqb_refl. now rewrite IH.
+    + cbn [app subst_d]. rewrite E. now rewrite IH.
 Qed.
 
 Lemma standalone_file_name c caller test :
   construct_filename c caller test true =
-  (match c_filename c with [] => replace_byte slash 95%N test | f => f end) ++ B "_%d" ++ snaps_ext ++ c_ext c.
-Proof. unfold construct_filename. destruct (c_filename c); now rewrite <- ?app_assoc. Qed.
+  esc_pct (match c_filename c with [] => replace_byte slash 95%N test | f => f end) ++ B "_%d" ++ snaps_ext ++ esc_pct (c_ext c).
+Proof. unfold construct_filename. destruct (c_filename c); reflexivity. Qed.
+(* the k-th standalone file NAME, for every name and extension *)
+Lemma standalone_file_name_kth c caller test k :
+  subst_d (construct_filename c caller test true) k =
+  (match c_filename c with [] => replace_byte slash 95%N test | f => f end) ++ B "_" ++ k ++ snaps_ext ++ c_ext c.
+Proof.
+  rewrite standalone_file_name.
+  set (f := match c_filename c with [] => replace_byte slash 95%N test | f => f end).
+  change (B "_%d") with ([95%N] ++ [37%N; 100%N]).
+  replace (esc_pct f ++ ([95%N] ++ [37%N; 100%N]) ++ snaps_ext ++ esc_pct (c_ext c))
+    with (esc_pct (f ++ [95%N]) ++ 37%N :: 100%N :: esc_pct (snaps_ext ++ c_ext c)).
+  - rewrite subst_d_format. now rewrite <- !app_assoc.
+  - assert (Happ : forall a b, esc_pct (a ++ b) = esc_pct a ++ esc_pct b).
+    { intros a b. induction a as [|x a IH]; [reflexivity|]. cbn [app esc_pct]. destruct (N.eqb x pct); cbn [app]; now rewrite IH. }
+    rewrite !Happ. change (esc_pct [95%N]) with [95%N]. change (esc_pct snaps_ext) with snaps_ext.
+    now rewrite <- !app_assoc.
+Qed.
 
 (* MatchStandaloneJSON: ".json" exactly when no Ext option was given *)
 Lemma json_ext_default c : c_ext c = [] -> c_ext (json_ext c) = B ".json".
@@ -106,11 +132,14 @@ Proof. intros E. unfold json_ext. destruct (c_ext c); [contradiction|reflexivity
 (* under -trimpath a relative Dir is kept as it is (it resolves against the working directory): the location no longer
    depends on the directory of the calling test file, only - for a multi-entry file without Filename - on its base name *)
 Lemma trim_dir_kept c caller test standalone :
-  snapshot_path_gen true c caller test standalone = join2 (c_dir c) (construct_filename c caller test standalone).
+  snapshot_path_gen true c caller test standalone =
+  join2 (if standalone then esc_pct (c_dir c) else c_dir c)
+        (construct_filename c (if standalone then esc_pct caller else caller) test standalone).
 Proof. unfold snapshot_path_gen. now rewrite andb_false_r. Qed.
 Lemma trim_caller_dir_irrelevant c caller1 caller2 test standalone :
   basename caller1 = basename caller2 ->
   snapshot_path_gen true c caller1 test standalone = snapshot_path_gen true c caller2 test standalone.
 Proof.
-  intros E. rewrite !trim_dir_kept. f_equal. unfold construct_filename. now rewrite E.
+  intros E. rewrite !trim_dir_kept. f_equal. unfold construct_filename.
+  destruct standalone; [reflexivity|now rewrite E].
 Qed.
